@@ -28,6 +28,16 @@ Theorem C01_static_plan_sound : forall fuel S D obj sels visited g saw g' v',
 Proof. exact plan_collect_static. Qed.
 Print Assumptions C01_static_plan_sound.
 
+(* Every static level of a prepared plan (as dumped from the real planner through the verif hook and
+   compared with plan_tree on every PlanQuery case) lists exactly the response keys CollectFields
+   yields for the merged selection sets, for every variable assignment. *)
+Theorem C01_plan_level_static : forall fuel S D obj sets fs,
+  plan_tree (Datatypes.S fuel) S D obj sets = Some (PT false fs) ->
+  exists g, (forall vars, collect_all fuel S D vars obj sets [] [] = Some g) /\
+            map (fun x => fst (fst x)) fs = map fst g.
+Proof. exact plan_tree_static_level. Qed.
+Print Assumptions C01_plan_level_static.
+
 (* Only included occurrences whose type conditions match are executed under a response key
    (@skip/@include evaluated at every occurrence, spread and inline fragment). *)
 Theorem C01_collect_sound : forall fuel S D vars obj sels g' v',
